@@ -103,7 +103,7 @@ Definition isSync k m := match m with MSync j => Nat.eqb j k | _ => false end.
 Definition isDereg k m := match m with MDereg j => Nat.eqb j k | _ => false end.
 Definition isCbOr k m := match m with MCbOr j => Nat.eqb j k | _ => false end.
 Definition isStopCas k m := match m with MStopCas j => Nat.eqb j k | _ => false end.
-Definition isChain k m := isSync k m || isDereg k m || isHop k m.
+Definition isChain k m := match m with MSync j | MDereg j | MHop j => Nat.eqb j k | _ => false end.
 Definition isLoop m := match m with MLoad | MCas _ => true | _ => false end.
 Definition isReg m := match m with MReg => true | _ => false end.
 Definition isSL m := match m with MSyncLoad => true | _ => false end.
@@ -234,9 +234,9 @@ Qed.
 (* Tier 1: every party is in exactly one phase: before/in its loop, parked in the word,
    being completed (a try_complete pending), completed                                         *)
 
-Ltac norm := cbn [hs nthr kd w aborted stk cstop cstart ccomp sync stopreq cb slot delivered tres
+Ltac norm := cbn [hs nthr kd w aborted stk cstop cstart ccomp sync stopreq cb slot delivered tres taken
                   set_w set_aborted set_stk set_cstop set_cstart set_ccomp set_sync set_stopreq
-                  set_cb set_slot set_delivered set_tres push fill] in *.
+                  set_cb set_slot set_delivered set_tres set_taken push fill] in *.
 
 Definition b2n (b : bool) : nat := if b then 1 else 0.
 Definition party s k := is_party_kind (kd s k).
@@ -274,7 +274,8 @@ Ltac case_eqb :=
 
 Ltac simp_cnt :=
   repeat rewrite ?cnt_cons, ?cnt_app, ?cnt_nil in *;
-  cbn [isTc isTcc isHop isSync isDereg isCbOr isStopCas isLoop isReg isSL isSS isSP b2n] in *.
+  cbn [isTc isTcc isHop isSync isDereg isCbOr isStopCas isChain isLoop isReg isSL isSS isSP b2n
+       orb andb negb Bool.eqb] in *.
 
 Lemma caller_party k : is_caller_kind k = true -> is_party_kind k = true.
 Proof. destruct k; simpl; congruence. Qed.
@@ -302,18 +303,43 @@ Ltac rew_bools :=
   end.
 
 Ltac kill_ifs_all :=
-  repeat match goal with
+  repeat (case_eqb; simp_cnt;
+  match goal with
   | |- context[if ?c then _ else _] => destruct c eqn:?
   | |- context[match cb ?s ?k with _ => _ end] => destruct (cb s k) eqn:?
   | H : context[if ?c then _ else _] |- _ => destruct c eqn:?
   | H : context[match cb ?s ?k with _ => _ end] |- _ => destruct (cb s k) eqn:?
-  end.
+  end); case_eqb; simp_cnt.
 
 Ltac case_weqb :=
   repeat match goal with
   | |- context[word_eqb ?a ?b] => destruct (word_eqb_spec a b)
   | H : context[word_eqb ?a ?b] |- _ => destruct (word_eqb_spec a b)
   end.
+
+Ltac rw_st := try match goal with HH : stk _ _ = _ :: _ |- _ => rewrite ?HH in * end.
+Ltac clear_pn := repeat match goal with HH : _ = pendf _ _ _ |- _ => clear HH end.
+Ltac split_decide :=
+  try (match goal with Hd : decide (kd ?s ?t) _ = _ |- _ =>
+         let Hk := fresh "Hk" in destruct (kd s t) eqn:Hk; cbn [decide] in Hd; try discriminate Hd end).
+Ltac split_w :=
+  try (match goal with
+       | |- context[w ?s] => destruct (w s) eqn:?
+       | H : context[w ?s] |- _ => destruct (w s) eqn:?
+       end); cbn [word_eqb] in *.
+(* the kind of party k0, keeping the equations (they survive later substitutions) *)
+Ltac split_kind s k0 :=
+  let Hcp := fresh "Hcp" in let Ecq := fresh "Ecq" in let Epq := fresh "Epq" in
+  pose proof (caller_party (kd s k0)) as Hcp;
+  destruct (is_caller_kind (kd s k0)) eqn:Ecq; destruct (is_party_kind (kd s k0)) eqn:Epq;
+  try (discriminate (Hcp eq_refl)); clear Hcp.
+Ltac grind :=
+  split_w; case_eqb; rw_st; simp_cnt; split_decide;
+  kinds; try discriminate; try congruence; try lia;
+  case_eqb; kinds; try discriminate; try congruence; try lia;
+  rew_bools; cbn [b2n] in *; try lia;
+  kill_ifs_all; simp_cnt; try lia;
+  cbn [word_eqb] in *; case_eqb; kinds; rew_bools; try discriminate; try congruence; try lia.
 
 Lemma step_inv1 t s s' e : Inv0 s -> Inv1 s -> step t s = Some (s', e) -> Inv1 s'.
 Proof.
@@ -331,15 +357,109 @@ Proof.
   all: pose proof (caller_party (kd s k0)) as Hcp;
        destruct (is_caller_kind (kd s k0)) eqn:Ecq; destruct (is_party_kind (kd s k0)) eqn:Epq;
        try (discriminate (Hcp eq_refl)); clear Hcp.
-  Time all: try (destruct (w s) eqn:Ew); cbn [word_eqb] in *.
-  Time all: case_eqb; rewrite ?Hst in *; simp_cnt.
-  Time all: try (match goal with Hd : decide (kd ?s ?t) _ = _ |- _ =>
+  all: try (destruct (w s) eqn:Ew); cbn [word_eqb] in *.
+  all: case_eqb; rewrite ?Hst in *; simp_cnt.
+  all: try (match goal with Hd : decide (kd ?s ?t) _ = _ |- _ =>
                    destruct (kd s t) eqn:Hk; cbn [decide] in Hd; try discriminate Hd end).
-  Time all: kinds; try discriminate; try congruence.
-  Time all: try lia.
-  Time all: case_eqb; kinds; try discriminate; try congruence; try lia.
-  Time all: rew_bools; cbn [b2n] in *; try lia.
-  Time all: kill_ifs_all; simp_cnt; try lia.
-  Time all: cbn [word_eqb] in *; case_eqb; kinds; rew_bools; try discriminate; try congruence; try lia.
-  Show.
-Abort.
+  all: kinds; try discriminate; try congruence.
+  all: try lia.
+  all: case_eqb; kinds; try discriminate; try congruence; try lia.
+  all: rew_bools; cbn [b2n] in *; try lia.
+  all: kill_ifs_all; simp_cnt; try lia.
+  all: cbn [word_eqb] in *; case_eqb; kinds; rew_bools; try discriminate; try congruence; try lia.
+Qed.
+
+(* ------------------------------------------------------------------------------------------ *)
+(* Tier 2: completion chains, deliveries, slots                                                *)
+
+Definition phop s k := pend (isHop k) s.
+Definition pchain s k := pend (isChain k) s.
+
+Record Inv2 (s : st) : Prop := {
+  i2_hop : forall k, phop s k + length (delivered s k) = comp s k;
+  i2_chain : forall k, comp s k = 0 -> pchain s k = 0;
+  i2_slot0 : forall k, pre s k + inw s k = 1 -> slot s k = None;
+  i2_slot1 : forall k, kd s k = TAccept -> ptc s k + comp s k = 1 -> slot s k <> None;
+  i2_sync : forall k, sync s k = true -> ccomp s k = true
+}.
+
+Ltac begin_step H I0 :=
+  step_cases H;
+  (match goal with Hst : stk ?s ?t = _ :: _ |- _ =>
+     let Hlt := fresh "Hlt" in pose proof (stk_lt _ _ _ _ I0 Hst) as Hlt end);
+  try (exfalso;
+       match goal with Hst : stk ?s ?t = MCas ?v :: _, Hk : kd ?s ?t = _ |- _ =>
+         let Hd := fresh in
+         pose proof (i0_cas s I0 t v ltac:(rewrite Hst; left; reflexivity)) as Hd;
+         rewrite Hk in Hd; simpl in Hd; discriminate Hd end).
+
+Ltac unf := unfold phop, pchain, pre, inw, ptc, comp, party, pend, word_of, word_ok in *; norm.
+Ltac pp := match goal with Hlt : _ < nthr _ |- _ => pose_pend Hlt end; unfold upd in *; rw_st; clear_pn.
+Ltac go := case_eqb; rw_st; simp_cnt; try lia; rew_bools; cbn [b2n] in *; try lia;
+           kill_ifs_all; cbn [length] in *; try lia.
+
+Lemma step_inv2_hop t s s' e : Inv0 s -> Inv1 s -> Inv2 s -> step t s = Some (s', e) ->
+  forall k, phop s' k + length (delivered s' k) = comp s' k.
+Proof.
+  intros I0 I1 I2 H. begin_step H I0.
+  all: intro k0; pose proof (i2_hop s I2 k0) as Hh; pose proof (i1_u s I1 k0) as Hu.
+  all: unf; pp; go.
+Qed.
+
+Lemma step_inv2_chain t s s' e : Inv0 s -> Inv1 s -> Inv2 s -> step t s = Some (s', e) ->
+  forall k, comp s' k = 0 -> pchain s' k = 0.
+Proof.
+  intros I0 I1 I2 H. begin_step H I0.
+  all: intro k0; pose proof (i2_chain s I2 k0) as Hh; pose proof (i1_u s I1 k0) as Hu.
+  all: unf; pp; go.
+Qed.
+
+Lemma step_inv2_slot0 t s s' e : Inv0 s -> Inv1 s -> Inv2 s -> step t s = Some (s', e) ->
+  forall k, pre s' k + inw s' k = 1 -> slot s' k = None.
+Proof.
+  intros I0 I1 I2 H. pose proof (step_inv1 _ _ _ _ I0 I1 H) as I1'. begin_step H I0.
+  all: intro k0; pose proof (i2_slot0 s I2 k0) as Hh; pose proof (i1_u s I1 k0) as Hu;
+       pose proof (i1_u _ I1' k0) as Hu'; pose proof (i1_w s I1) as Hw0; clear I1'.
+  all: unf; pp.
+  all: intro Hg; split_kind s k0.
+  all: grind.
+  all: try (apply Hh; lia).
+Qed.
+
+Lemma step_inv2_slot1 t s s' e : Inv0 s -> Inv1 s -> Inv2 s -> step t s = Some (s', e) ->
+  forall k, kd s' k = TAccept -> ptc s' k + comp s' k = 1 -> slot s' k <> None.
+Proof.
+  intros I0 I1 I2 H. pose proof (step_inv1 _ _ _ _ I0 I1 H) as I1'. begin_step H I0.
+  all: intro k0; pose proof (i2_slot1 s I2 k0) as Hh; pose proof (i1_u s I1 k0) as Hu;
+       pose proof (i1_u _ I1' k0) as Hu'; pose proof (i1_w s I1) as Hw0; clear I1'.
+  all: unf; pp.
+  all: intros Hka Hg; specialize (Hh Hka); rewrite Hka in *; cbn [is_party_kind is_caller_kind] in *.
+  all: grind.
+  all: try (apply Hh; lia).
+  all: match goal with |- context[slot ?s ?j] => destruct (slot s j) end; discriminate.
+Qed.
+
+Lemma step_inv2_sync t s s' e : Inv0 s -> Inv1 s -> Inv2 s -> step t s = Some (s', e) ->
+  forall k, sync s' k = true -> ccomp s' k = true.
+Proof.
+  intros I0 I1 I2 H. begin_step H I0.
+  all: intro k0; pose proof (i2_sync s I2 k0) as Hh; pose proof (i2_chain s I2 k0) as Hch.
+  all: unf; pp.
+  all: try exact Hh.
+  all: go.
+  all: try exact Hh.
+  intros _. destruct (ccomp s k) eqn:Ec; [reflexivity|exfalso].
+  pose proof (pendf_in (isChain k) (nthr s) (stk s) t (MSync k) Hlt
+                ltac:(rewrite Hst; left; reflexivity) ltac:(simpl; apply Nat.eqb_refl)).
+  cbn [b2n] in Hch. specialize (Hch eq_refl). lia.
+Qed.
+
+Lemma step_inv2 t s s' e : Inv0 s -> Inv1 s -> Inv2 s -> step t s = Some (s', e) -> Inv2 s'.
+Proof.
+  intros I0 I1 I2 H. constructor.
+  - eapply step_inv2_hop; eauto.
+  - eapply step_inv2_chain; eauto.
+  - eapply step_inv2_slot0; eauto.
+  - eapply step_inv2_slot1; eauto.
+  - eapply step_inv2_sync; eauto.
+Qed.
